@@ -213,6 +213,8 @@ func asPtr(v Value) *Value {
 	switch v := v.(type) {
 	case *Value:
 		return v
+	case *SymPtr:
+		panic(pathEnd{"unsupported", "symbolic pointer passed to an intrinsic"})
 	}
 	panic(fmt.Sprintf("asPtr: %T", v))
 }
